@@ -259,8 +259,39 @@ func norm(v sval) sval {
 
 func (cx *SpecCtx) lookupLocal(name string) (sval, bool) {
 	g := cx.g
+	// rangeindexN: the hidden index variable of the range loop with ordinal N
+	if strings.HasPrefix(name, "rangeindex") && len(name) > len("rangeindex") {
+		var n int
+		if _, err := fmt.Sscanf(name[len("rangeindex"):], "%d", &n); err == nil {
+			for _, l := range g.loops {
+				if l.ordinal != n {
+					continue
+				}
+				for _, a := range g.cellName["rangeindex"] {
+					for _, in := range l.header.Instrs {
+						if st, ok := in.(*ssa.Store); ok && st.Addr == ssa.Value(a) {
+							key := g.cellOf[a]
+							return norm(sval{t: g.get(cx.st, key), typ: g.cellType[key], kind: "val"}), true
+						}
+					}
+				}
+			}
+		}
+	}
 	allocs := g.cellName[name]
 	if len(allocs) == 0 {
+		// a named local that lives on the heap (escaping / captured variable)
+		for _, a := range g.heapLocals[name] {
+			ref, ok := g.vals[a]
+			if !ok {
+				continue
+			}
+			pt := deref(a.Type())
+			if _, isS := isStruct(pt); isS {
+				return sval{t: ref, typ: pt, kind: "loc"}, true
+			}
+			return norm(sval{t: fmt.Sprintf("(select %s %s)", g.get(cx.st, g.sc.cellComp(pt)), ref), typ: pt, kind: "val"}), true
+		}
 		return sval{}, false
 	}
 	pick := allocs[0]
